@@ -143,7 +143,9 @@ func convertCondition(cond *gripql.HasCondition, not bool) bson.M {
 		}
 		expr = bson.M{"$not": bson.M{"$in": val}}
 	case gripql.Condition_CONTAINS:
-		expr = bson.M{"$in": []interface{}{val}}
+		// the field must be a list with an element equal to the value ($in would also select a
+		// scalar field equal to it)
+		expr = bson.M{"$elemMatch": bson.M{"$eq": val}}
 	default:
 		log.Error("unknown where condition type")
 	}
